@@ -265,4 +265,5 @@ package cmd
 //@   ensures [bounded] {C14} callCount(walkFunc) - old(callCount(walkFunc)) <= ite(maxCount < 0, 0, maxCount)
 //@   loop 0:
 //@     invariant forall i int :: 0 <= i && i < len(queue) ==> len(queue[i]) >= 1
+//@     invariant [limit-kept] maxCount == old(maxCount)
 //@     invariant [count] 0 <= loopCounter && callCount(walkFunc) - old(callCount(walkFunc)) <= loopCounter && (loopCounter == 0 || loopCounter <= maxCount)
